@@ -52,6 +52,18 @@
 //! fired virtual key is activity, so an entry with a longer timeout that is left pending waits for a
 //! complete new idle time. Compared tick by tick with the on-idle model generalised to a set of
 //! entries, and in plain form: the keys of entries that were due together come down together.
+//!
+//! Part I (`c18_blocks.rs`): virtual keys defined in SEVERAL blocks. 2 and 3 definition blocks in every
+//! mix and order of `deffakekeys` and `defvirtualkeys`, 1 or 2 keys per block, the last block(s) before
+//! or after the layers; every key of every block pressed / released / tapped / toggled through all the
+//! routes of part A and judged by the same per-key model: every key - also those of the later blocks -
+//! performs its own action and keeps its own pressed state (the OS state of EVERY virtual key is
+//! compared after every operation).
+//!
+//! Part J (`c18_holdmulti.rs`): hold-for-duration pending for SEVERAL virtual keys at once, with hold
+//! times that run out in the same tick (one `multi` with equal durations; keys armed N ticks apart with
+//! durations N apart; after a re-arm), one tick apart and further apart: every key goes up when its own
+//! time has passed, tick by tick against the model of part B generalised to a set of virtual keys.
 
 use crate::core::sim::{code_name, osc, render_hist, Ev, OutKind, Sim};
 use crate::core::{CaseOut, Check, Ctx};
@@ -64,6 +76,10 @@ mod rapid;
 mod idlehold;
 #[path = "c18_idlemulti.rs"]
 mod idlemulti;
+#[path = "c18_blocks.rs"]
+mod blocks;
+#[path = "c18_holdmulti.rs"]
+mod holdmulti;
 
 pub struct C18Check;
 pub static C18: C18Check = C18Check;
@@ -1494,6 +1510,10 @@ enum CaseKind {
     IdleHold(usize, u64, u64),
     /// part H: (index into idlemulti::configs_h(), first scenario, one past the last)
     IdleMulti(usize, u64, u64),
+    /// part I: index into blocks::configs_i()
+    Blocks(usize),
+    /// part J: (index into holdmulti::configs_j(), first scenario, one past the last)
+    HoldMulti(usize, u64, u64),
 }
 
 fn backlog_one(out: &mut CaseOut, c: &ConfB, steps: &[(u64, u8)], reported: &mut std::collections::BTreeSet<String>, may_sample: bool) {
@@ -1637,6 +1657,17 @@ fn layout(ctx: &Ctx) -> Vec<CaseKind> {
             s += 512;
         }
     }
+    for ci in 0..blocks::configs_i().len() {
+        v.push(CaseKind::Blocks(ci));
+    }
+    for (ci, c) in holdmulti::configs_j().iter().enumerate() {
+        let tot = c.total(ctx);
+        let mut s = 0;
+        while s < tot {
+            v.push(CaseKind::HoldMulti(ci, s, (s + 512).min(tot)));
+            s += 512;
+        }
+    }
     v
 }
 
@@ -1657,6 +1688,8 @@ impl Check for C18Check {
             Some(CaseKind::RapidRandom(ch, n)) => json!({"kind": format!("{n} seeded rapid-fire operation histories, chunk {ch}")}),
             Some(CaseKind::IdleHold(ci, a, b)) => json!({"config": idlehold::configs_g()[*ci].text(), "scenarios": format!("on-idle with pending hold-for-duration scenarios #{a}..#{b}")}),
             Some(CaseKind::IdleMulti(ci, a, b)) => json!({"config": idlemulti::configs_h()[*ci].text(), "scenarios": format!("several on-idle entries pending scenarios #{a}..#{b}")}),
+            Some(CaseKind::Blocks(ci)) => blocks::describe(*ci),
+            Some(CaseKind::HoldMulti(ci, a, b)) => holdmulti::describe(*ci, *a, *b),
             _ => json!({"kind": "on-idle after a busy period"}),
         }
     }
@@ -1669,6 +1702,8 @@ impl Check for C18Check {
             CaseKind::RapidRandom(ch, n) => rapid::run_random(&mut out, ctx, ch, n),
             CaseKind::IdleHold(ci, a, b) => idlehold::run_chunk(&mut out, ci, a, b),
             CaseKind::IdleMulti(ci, a, b) => idlemulti::run_chunk(&mut out, ci, a, b),
+            CaseKind::Blocks(ci) => blocks::run_config(&mut out, ctx, ci),
+            CaseKind::HoldMulti(ci, a, b) => holdmulti::run_chunk(&mut out, ci, a, b),
             CaseKind::Backlog(di, a, b) => {
                 let c = ConfB { d: B_DS[di].0, d2: B_DS[di].1, h: B_H };
                 let mut reported: std::collections::BTreeSet<String> = Default::default();
@@ -1854,7 +1889,7 @@ impl Check for C18Check {
         out
     }
     fn rule(&self) -> String {
-        "case = (a) one configuration (virtual key sets {key}, {key,key}, {key,layer-while-held}, {key,layer,macro}; trigger path direct fake-key call / on-press / on-release / legacy on-press-fakekey / legacy on-release-fakekey / macro item / defseq completion) and a chunk of ALL operation histories up to N operations over every (virtual key, press|release|tap|toggle) pair (macro keys: tap only); quick N=5 (4 for the larger sets on the slower paths), thorough N=7 (6); every history is compared with the reference model after every operation (OS key state, active layer) and as a whole (OS key stream, plus a probe key press showing the layer through the OS stream); the model is the same for every path, so equal effect across paths is implied; (b) hold-for-duration with durations (key 0, key 1 on the SAME virtual key) in {(10,10),(40,40),(40,10),(10,40),(15,12)} and on-idle D=10 (second key: the same on-idle action / layer-while-held / XX / (on-release tap-vkey k2)), D=40 (same action; layer-while-held in loop order) and the legacy form (D=10), each on-idle configuration driven in two orders per millisecond: blocking predicate - event - tick (an iteration of the real processing loop) and event - blocking predicate - tick: a first activation followed by ALL sequences of up to 2 further taps (thorough: plus those with 3, complete or a fixed-stride sample of 250 000 per configuration) of the same key, the second key or a plain key, at every combination of distances (hold-for-duration: press-to-press 2, 3, x-2..x+2 for each duration x, L-S-1..L-S+1, 2L; on-idle: release-to-press 3, D-1..D+2, 2D+5) and hold lengths (hold-for-duration 1, 4; on-idle: first tap 1, D/2, further taps 1, 4, D/2, D-2 and 2D+3 - the last with OS repeat events every D/2 for keys that are not normal keys), plus for hold-for-duration the complete sweep: activation by key a, second activation by key b at EVERY distance 2..max(D)+3, optionally a third tap of any of the three keys at a distance around S, L, L-S; compared tick by tick with the model (hold-for-duration: up d[k] after the latest activation made by key k; on-idle: the idle count restarts at every input event - press, release, OS repeat - and while something is queued or an output key is down); (c) on-idle armed before a long macro: fires exactly once and not before D ticks after the macro's last output. (d) hold-for-duration whose own press is still waiting in the queue: (D on key 0, D on key 1) in {(1,1),(2,2),(3,3),(5,5),(5,2),(2,5)} with two keys carrying the action for one virtual key, a plain key and a tap-hold key (timeout 6); ALL toggle scenarios (each step presses the key if it is up, releases it if it is down) of up to 4 (quick) / 5 (thorough) steps over the 4 keys and the distances {0,1,2,7} to the previous event (0 = same millisecond, 7 = longer than every D and than the tap-hold timeout), plus seeded longer scenarios (4..10 steps, D in {1,2,3,4,5,8,12}, in half of them a second duration from {1,2,3,4,5,8,12,20} on the second key, tap-hold timeout in {4,6,15,30}, bursts of same-millisecond events); the virtual key must come down once per episode and go up again D after the latest activation was processed, compared tick by tick with the queue model (one queued event consumed per tick, none while the tap-hold is undecided or during the pause after its decision; the virtual key's press and release wait behind everything queued before them), and in plain form: every press of the virtual key is followed by its release. (e) rapid-fire operation histories, judged by the model of (a) (operations applied in the order issued, whatever the spacing; final state of every virtual key, the whole OS stream and the layer activations sampled after every tick, at order level): virtual key sets {key}, {layer-while-held}, {key,layer}; paths: direct fake-key calls (all four operations on every key), physical keys (one virtual key: two keys `(multi (on-press press-vkey v) (on-release release-vkey v))`, `(on-press toggle-vkey v)`, `(on-release tap-vkey v)`, `(multi (on-press release-vkey v) (on-release press-vkey v))`; two virtual keys: two such hold keys per virtual key, a key toggling one on press and the other on release, a key tapping one on press and the other on release) and mixed (two hold keys plus the direct operations); ALL histories of up to 4 (quick; 3 for direct calls on two virtual keys) / 5 (thorough; 4; beyond 600 000 per configuration a fixed-stride sample) steps, each step a physical key (pressed if up, released if down) or a direct operation, at the distances {0,1,2,5} (one virtual key, direct and physical) or {0,1,3} ticks to the previous step (0 = same millisecond), keys still down released one tick apart at the end; plus seeded histories of 5..10 steps with bursts of same-millisecond steps. (f) on-idle while a hold-for-duration is pending: keys `(multi (hold-for-duration L vh) (on-idle D tap-vkey k1))`, `(hold-for-duration L vh)`, a plain key (another key on the held layer) and `(on-idle D tap-vkey k1)`; vh carries a layer-while-held action, a macro or a plain key; (D,L) in {(10,25),(8,9),(20,7)} in loop order (predicate - event - tick) and (10,25) also with the predicate between event and tick; a first tap of any of the four keys followed by ALL sequences of up to 2 further taps (thorough: plus 3, complete or a fixed-stride sample of 60 000 per configuration) of the four keys at the release-to-press distances {2, D-1, D+1, L-D, L-1, L+1, L+D-1, L+D+2}; compared tick by tick with the combined model (the idle count does not run while a hold-for-duration is pending, i.e. from the activation until the queued release of the held key has been processed; hold-for-duration as in (b)), and in plain form: the on-idle key never comes down while a hold-for-duration is pending. (g) several on-idle entries pending at once, each `(on-idle D_i tap-vkey v_i)` with a virtual key of its own: timeouts {10,10}, {25,25}, {10,10,10}, {10,10,25}, {8,20,20}, {10,11,10}, {8,14,20} (control: never two due together) and {10,10} in the legacy on-idle-fakekey form; physical keys: one key arming all entries in one `multi`, keys arming one entry or a `multi` of two, a plain key; loop order (predicate - event - tick) for all, predicate between event and tick for the first four; a first tap of any arming key followed by ALL sequences of up to 2 further taps (thorough: plus 3, complete or a fixed-stride sample of 40 000 per configuration) of any key, held 1 or 3 ticks, at the release-to-press distances {2, S-1, S+1, S+4, L-1, L+2, S+L+3n+4, 2L+S+6n+6} (S / L = shortest / longest timeout, n = number of entries; S+1 and S+4 fall into the operation of the fired keys); compared tick by tick with the model (shared idle count as in (b); at the end of a tick EVERY pending entry whose timeout the count has reached fires - press and release of its virtual key are queued -, each exactly once; entries due in the same tick may fire in any order: the expected stream takes the order of the observed one), and in plain form: all virtual keys of entries that were due in the same tick come down, within 2(n-1) ticks of each other; at the end no entry is left waiting. Non-trivial = history/scenario ran and was judged; distinct = (configuration, first four operations) / (configuration, events, re-arms, episodes, firings, re-arms that shorten the time left, idle restarts by release/repeat) / (configuration, events, same-millisecond events, episodes, re-arms, expiries before the press was processed, tap-hold outcomes) / (rapid configuration, events, same-millisecond pairs, operations issued while an own event was queued, presses issued while the own release was queued, expected outputs) / (idle+hold configuration, events, episodes, re-arms, firings, firings delayed by the pending hold) / (several-entries configuration, events, firings, ticks with entries due together, of these armed by different keys, firings of entries left pending by an earlier firing).".into()
+        "case = (a) one configuration (virtual key sets {key}, {key,key}, {key,layer-while-held}, {key,layer,macro}; trigger path direct fake-key call / on-press / on-release / legacy on-press-fakekey / legacy on-release-fakekey / macro item / defseq completion) and a chunk of ALL operation histories up to N operations over every (virtual key, press|release|tap|toggle) pair (macro keys: tap only); quick N=5 (4 for the larger sets on the slower paths), thorough N=7 (6); every history is compared with the reference model after every operation (OS key state, active layer) and as a whole (OS key stream, plus a probe key press showing the layer through the OS stream); the model is the same for every path, so equal effect across paths is implied; (b) hold-for-duration with durations (key 0, key 1 on the SAME virtual key) in {(10,10),(40,40),(40,10),(10,40),(15,12)} and on-idle D=10 (second key: the same on-idle action / layer-while-held / XX / (on-release tap-vkey k2)), D=40 (same action; layer-while-held in loop order) and the legacy form (D=10), each on-idle configuration driven in two orders per millisecond: blocking predicate - event - tick (an iteration of the real processing loop) and event - blocking predicate - tick: a first activation followed by ALL sequences of up to 2 further taps (thorough: plus those with 3, complete or a fixed-stride sample of 250 000 per configuration) of the same key, the second key or a plain key, at every combination of distances (hold-for-duration: press-to-press 2, 3, x-2..x+2 for each duration x, L-S-1..L-S+1, 2L; on-idle: release-to-press 3, D-1..D+2, 2D+5) and hold lengths (hold-for-duration 1, 4; on-idle: first tap 1, D/2, further taps 1, 4, D/2, D-2 and 2D+3 - the last with OS repeat events every D/2 for keys that are not normal keys), plus for hold-for-duration the complete sweep: activation by key a, second activation by key b at EVERY distance 2..max(D)+3, optionally a third tap of any of the three keys at a distance around S, L, L-S; compared tick by tick with the model (hold-for-duration: up d[k] after the latest activation made by key k; on-idle: the idle count restarts at every input event - press, release, OS repeat - and while something is queued or an output key is down); (c) on-idle armed before a long macro: fires exactly once and not before D ticks after the macro's last output. (d) hold-for-duration whose own press is still waiting in the queue: (D on key 0, D on key 1) in {(1,1),(2,2),(3,3),(5,5),(5,2),(2,5)} with two keys carrying the action for one virtual key, a plain key and a tap-hold key (timeout 6); ALL toggle scenarios (each step presses the key if it is up, releases it if it is down) of up to 4 (quick) / 5 (thorough) steps over the 4 keys and the distances {0,1,2,7} to the previous event (0 = same millisecond, 7 = longer than every D and than the tap-hold timeout), plus seeded longer scenarios (4..10 steps, D in {1,2,3,4,5,8,12}, in half of them a second duration from {1,2,3,4,5,8,12,20} on the second key, tap-hold timeout in {4,6,15,30}, bursts of same-millisecond events); the virtual key must come down once per episode and go up again D after the latest activation was processed, compared tick by tick with the queue model (one queued event consumed per tick, none while the tap-hold is undecided or during the pause after its decision; the virtual key's press and release wait behind everything queued before them), and in plain form: every press of the virtual key is followed by its release. (e) rapid-fire operation histories, judged by the model of (a) (operations applied in the order issued, whatever the spacing; final state of every virtual key, the whole OS stream and the layer activations sampled after every tick, at order level): virtual key sets {key}, {layer-while-held}, {key,layer}; paths: direct fake-key calls (all four operations on every key), physical keys (one virtual key: two keys `(multi (on-press press-vkey v) (on-release release-vkey v))`, `(on-press toggle-vkey v)`, `(on-release tap-vkey v)`, `(multi (on-press release-vkey v) (on-release press-vkey v))`; two virtual keys: two such hold keys per virtual key, a key toggling one on press and the other on release, a key tapping one on press and the other on release) and mixed (two hold keys plus the direct operations); ALL histories of up to 4 (quick; 3 for direct calls on two virtual keys) / 5 (thorough; 4; beyond 600 000 per configuration a fixed-stride sample) steps, each step a physical key (pressed if up, released if down) or a direct operation, at the distances {0,1,2,5} (one virtual key, direct and physical) or {0,1,3} ticks to the previous step (0 = same millisecond), keys still down released one tick apart at the end; plus seeded histories of 5..10 steps with bursts of same-millisecond steps. (f) on-idle while a hold-for-duration is pending: keys `(multi (hold-for-duration L vh) (on-idle D tap-vkey k1))`, `(hold-for-duration L vh)`, a plain key (another key on the held layer) and `(on-idle D tap-vkey k1)`; vh carries a layer-while-held action, a macro or a plain key; (D,L) in {(10,25),(8,9),(20,7)} in loop order (predicate - event - tick) and (10,25) also with the predicate between event and tick; a first tap of any of the four keys followed by ALL sequences of up to 2 further taps (thorough: plus 3, complete or a fixed-stride sample of 60 000 per configuration) of the four keys at the release-to-press distances {2, D-1, D+1, L-D, L-1, L+1, L+D-1, L+D+2}; compared tick by tick with the combined model (the idle count does not run while a hold-for-duration is pending, i.e. from the activation until the queued release of the held key has been processed; hold-for-duration as in (b)), and in plain form: the on-idle key never comes down while a hold-for-duration is pending. (g) several on-idle entries pending at once, each `(on-idle D_i tap-vkey v_i)` with a virtual key of its own: timeouts {10,10}, {25,25}, {10,10,10}, {10,10,25}, {8,20,20}, {10,11,10}, {8,14,20} (control: never two due together) and {10,10} in the legacy on-idle-fakekey form; physical keys: one key arming all entries in one `multi`, keys arming one entry or a `multi` of two, a plain key; loop order (predicate - event - tick) for all, predicate between event and tick for the first four; a first tap of any arming key followed by ALL sequences of up to 2 further taps (thorough: plus 3, complete or a fixed-stride sample of 40 000 per configuration) of any key, held 1 or 3 ticks, at the release-to-press distances {2, S-1, S+1, S+4, L-1, L+2, S+L+3n+4, 2L+S+6n+6} (S / L = shortest / longest timeout, n = number of entries; S+1 and S+4 fall into the operation of the fired keys); compared tick by tick with the model (shared idle count as in (b); at the end of a tick EVERY pending entry whose timeout the count has reached fires - press and release of its virtual key are queued -, each exactly once; entries due in the same tick may fire in any order: the expected stream takes the order of the observed one), and in plain form: all virtual keys of entries that were due in the same tick come down, within 2(n-1) ticks of each other; at the end no entry is left waiting. (h) virtual keys defined in several blocks: 2 blocks (keys per block 1+1, 2+1, 1+2, 2+2) and 3 blocks (1+1+1, 2+1+2, 1+2+1, 2+2+2), each block written as deffakekeys or defvirtualkeys in EVERY combination (4 resp. 8 mixes, file order = block order), each layout in two shapes: all blocks before the layers and every key a plain key with an output of its own; the last block (for some 3-block layouts the last two) after the layers, the first key of the first block a macro and the first key of the last block layer-while-held; each with the 7 trigger paths of (a) (the action spelling is independent of the spelling of the block that defines the key); ALL histories of 1 and 2 operations over every (virtual key, press|release|tap|toggle) pair (macro keys: tap only) plus seeded histories of 3..7 operations (16 per configuration in quick, 160 in thorough), spaced and judged as in (a): after every operation the OS state of EVERY virtual key of every block and the active layer, at the end the whole OS stream with the layer probe; a legal configuration that is rejected is a violation. (i) hold-for-duration pending for several virtual keys: 2 or 3 virtual keys (plain key outputs; one configuration lsft / lctl); physical keys: one `multi` arming all keys with EQUAL durations, keys arming one virtual key each with durations 3..9 ticks apart, a `multi` with durations one tick apart, a `multi` of two next to a single key, a plain key; a first tap of any arming key followed by ALL sequences of up to 2 further taps (thorough: plus 3, complete or a fixed-stride sample of 60 000 per configuration) of any key at EVERY press-to-press distance from 2 to (largest difference of two durations)+2 and one distance longer than every duration, keys held 1 tick; compared tick by tick with the model of (b) for a set of virtual keys (a pending key that is armed again only gets its time set anew; the release of every key whose time runs out in a tick is queued in that tick, several in any order - the expected stream takes the order of the observed one; one queued event consumed per tick), and in plain form: no virtual key is down at the end. Non-trivial = history/scenario ran and was judged; distinct = (configuration, first four operations) / (configuration, events, re-arms, episodes, firings, re-arms that shorten the time left, idle restarts by release/repeat) / (configuration, events, same-millisecond events, episodes, re-arms, expiries before the press was processed, tap-hold outcomes) / (rapid configuration, events, same-millisecond pairs, operations issued while an own event was queued, presses issued while the own release was queued, expected outputs) / (idle+hold configuration, events, episodes, re-arms, firings, firings delayed by the pending hold) / (several-entries configuration, events, firings, ticks with entries due together, of these armed by different keys, firings of entries left pending by an earlier firing) / (block layout, shape, path, first three operations) / (several-holds configuration, events, episodes, re-arms, ticks with times running out together, times running out one tick apart, of the former armed by different presses).".into()
     }
     fn assumptions(&self) -> Vec<String> {
         vec![
@@ -1862,6 +1897,8 @@ impl Check for C18Check {
             "part (e): virtual keys with a key or a layer-while-held action (a macro key has no state that a fast history could get wrong); at most 17 events are ever queued (keyberon's queue holds 32). toggle-vkey on the unchanged tree looks at the processed state, not at the events still queued (known finding C18:rapid:toggle-reads-state-before-own-queued-event:*, findings/C18-toggle-reads-state-before-queued-events.md): a history is put into that class only if a toggle was issued while the processed state of its virtual key differed from the state the operations issued so far lead to AND the complete observation (stream and final state) equals the reference model with exactly that reading of toggle; everything else is live".into(),
             "part (f): a pending hold-for-duration means kanata is not idle (the guide: kanata is not idle while it 'is waiting for the timeout of actions'; upstream's is_idle says the same) - from the tick in which the activation is processed until the queued release of the held key has been processed; taps of the on-idle keys are held 1 tick, of the other keys 1 or 3 ticks; L >= 7 so that the macro of a macro-carrying virtual key has finished long before the hold ends; one input event per millisecond".into(),
             "part (g): all pending on-idle entries share one idle time (the statement's 'after kanata has been idle for the stated time'): arming any entry and every input event restart it for all of them; the operation of a virtual key fired by on-idle is activity like any other (events queued, an output key down), so an entry left pending by a firing needs a complete idle time of its own afterwards; the order among entries that become due in the same tick is not specified (any order is accepted, the keys are operated one queued event per tick); every entry has a virtual key of its own and a tap action, and entries that are identical (same virtual key, action and timeout) are one entry; one input event per millisecond; keys are held 1 or 3 ticks".into(),
+            "part (h): deffakekeys and defvirtualkeys are two spellings that fill one set of virtual keys (the guide: deffakekeys is the older name), so every action spelling (on-press / on-press-fakekey / ...) may name a key of either kind of block and a block may follow the layers that use its keys; names are unique over all blocks; operations are spaced as in part (a)".into(),
+            "part (i): every virtual key has its own hold time (the statement's 'stated time since its most recent activation' per key); the order in which releases that become due in the same tick reach the OS is not specified (any order accepted, one per tick); one input event per millisecond, keys held 1 tick, press-to-press distance at least 2; the queue discipline is that of part (b) (a `multi` queues the presses of its virtual keys in the order written)".into(),
             "a virtual key with a macro action is only tapped (a macro cannot be held; the guide's press/toggle wording has no meaning for it)".into(),
             "layer-while-held virtual keys are observed through Layout::current_layer after every operation and through a probe key in the OS stream at the end of each history".into(),
             "timed forms: processing discipline of DESIGN appendix A (one queued event per tick; virtual key events are queued behind pending physical events); hold-for-duration releases D ticks after the tick of the latest activation; on-idle fires in the tick in which D idle loop iterations have been counted, any input resets the count".into(),
@@ -1958,6 +1995,42 @@ impl Check for C18Check {
             ("idle_multi_firings_of_entry_left_pending_by_earlier_firing", 20_000),
             ("idle_multi_inputs_while_fired_keys_queued", 15_000),
             ("idle_multi_rearms_of_pending_entry", 15_000),
+            ("blocks_configs", 600),
+            ("blocks_configs_2_blocks", 200),
+            ("blocks_configs_3_blocks", 400),
+            ("blocks_configs_2_or_more_deffakekeys_blocks", 250),
+            ("blocks_configs_2_or_more_defvirtualkeys_blocks", 250),
+            ("blocks_configs_both_spellings", 400),
+            ("blocks_configs_deffakekeys_block_first", 200),
+            ("blocks_configs_defvirtualkeys_block_first", 200),
+            ("blocks_configs_block_after_the_layers", 300),
+            ("blocks_histories", 150_000),
+            ("blocks_histories_Direct", 20_000),
+            ("blocks_histories_OnPress", 20_000),
+            ("blocks_histories_OnRelease", 20_000),
+            ("blocks_histories_LegacyPress", 20_000),
+            ("blocks_histories_LegacyRelease", 20_000),
+            ("blocks_histories_MacroItem", 20_000),
+            ("blocks_histories_Seq", 20_000),
+            ("blocks_histories_seeded", 10_000),
+            ("blocks_operations_on_key_of_second_block", 100_000),
+            ("blocks_operations_on_key_of_third_block", 80_000),
+            ("blocks_operations_on_key_of_later_deffakekeys_block", 100_000),
+            ("blocks_operations_on_key_of_later_defvirtualkeys_block", 100_000),
+            ("blocks_operations_while_key_of_another_block_pressed", 40_000),
+            ("hold_multi_scenarios", 40_000),
+            ("hold_multi_scenarios_2_virtual_keys", 20_000),
+            ("hold_multi_scenarios_3_virtual_keys", 15_000),
+            ("hold_multi_episodes", 90_000),
+            ("hold_multi_rearms", 40_000),
+            ("hold_multi_ticks_with_2_keys_due_together", 10_000),
+            ("hold_multi_ticks_with_3_keys_due_together", 3_000),
+            ("hold_multi_due_together_armed_by_one_multi", 12_000),
+            ("hold_multi_due_together_armed_by_different_presses", 800),
+            ("hold_multi_due_together_after_rearm", 8_000),
+            ("hold_multi_due_together_with_other_key_left_pending", 2_500),
+            ("hold_multi_due_one_tick_apart", 6_000),
+            ("hold_multi_several_pending_never_due_together", 15_000),
         ]
     }
     fn exhaustive(&self, _ctx: &Ctx) -> bool {
